@@ -1,6 +1,184 @@
+//! Smaller commands: `ffi` (C20), `fmt` (C14), `compile` (C15), `threads` (C19), `rust` (C18).
+use mimium_lang::ast::{Expr, Literal};
+use mimium_lang::interner::{ExprNodeId, ToSymbol, TypeNodeId};
+use mimium_lang::interpreter::{ExtFunction, Value as MValue};
+use mimium_lang::runtime::ffi_serde;
+use mimium_lang::types::{IntermediateId, PType, RecordTypeField, Type, TypeSchemeId, TypeVar};
+use mimium_lang::utils::environment::Environment;
 use serde_json::{Value, json};
+use std::panic::{AssertUnwindSafe, catch_unwind};
+use std::sync::{Arc, RwLock};
+
+// ---------------------------------------------------------------------------------------------
+// C20: values and types across the plugin FFI encoding
+fn code_expr(n: i64) -> ExprNodeId {
+    Expr::Literal(Literal::Int(n)).into_id_without_span()
+}
+
+fn to_value(v: &Value) -> MValue {
+    match v["k"].as_str().unwrap() {
+        "unit" => MValue::Unit,
+        "num" => MValue::Number(f64::from_bits(
+            u64::from_str_radix(v["b"].as_str().unwrap(), 16).unwrap(),
+        )),
+        "str" => MValue::String(v["s"].as_str().unwrap().to_symbol()),
+        "arr" => MValue::Array(v["es"].as_array().unwrap().iter().map(to_value).collect()),
+        "tup" => MValue::Tuple(v["es"].as_array().unwrap().iter().map(to_value).collect()),
+        "rec" => MValue::Record(
+            v["fs"]
+                .as_array()
+                .unwrap()
+                .iter()
+                .map(|f| (f["n"].as_str().unwrap().to_symbol(), to_value(&f["v"])))
+                .collect(),
+        ),
+        "tag" => MValue::TaggedUnion(v["t"].as_u64().unwrap(), Box::new(to_value(&v["v"]))),
+        "code" => MValue::Code(code_expr(v["c"].as_i64().unwrap())),
+        "error" => MValue::ErrorV(code_expr(0)),
+        "closure" => MValue::Closure(code_expr(0), vec![], Environment::new()),
+        "fixpoint" => MValue::Fixpoint("f".to_symbol(), code_expr(0)),
+        "extfn" => MValue::ExternalFn(ExtFunction::new("ext".to_symbol(), |_| MValue::Unit)),
+        "store" => MValue::Store(std::rc::Rc::new(std::cell::RefCell::new(to_value(&v["v"])))),
+        "ctor" => MValue::ConstructorFn(0, "C".to_symbol(), Type::Primitive(PType::Unit).into_id()),
+        k => panic!("bad value kind {k}"),
+    }
+}
+
+fn from_value(v: &MValue) -> Value {
+    match v {
+        MValue::Unit => json!({"k": "unit"}),
+        MValue::Number(n) => json!({"k": "num", "b": format!("{:016x}", n.to_bits())}),
+        MValue::String(s) => json!({"k": "str", "s": s.as_str()}),
+        MValue::Array(a) => json!({"k": "arr", "es": a.iter().map(from_value).collect::<Vec<_>>()}),
+        MValue::Tuple(a) => json!({"k": "tup", "es": a.iter().map(from_value).collect::<Vec<_>>()}),
+        MValue::Record(fs) => json!({"k": "rec", "fs": fs.iter().map(|(n, v)| json!({"n": n.as_str(), "v": from_value(v)})).collect::<Vec<_>>()}),
+        MValue::TaggedUnion(t, v) => json!({"k": "tag", "t": t, "v": from_value(v)}),
+        MValue::Code(e) => match e.to_expr() {
+            Expr::Literal(Literal::Int(n)) => json!({"k": "code", "c": n}),
+            _ => json!({"k": "code", "c": "other"}),
+        },
+        MValue::ErrorV(_) => json!({"k": "error"}),
+        MValue::Closure(..) => json!({"k": "closure"}),
+        MValue::Fixpoint(..) => json!({"k": "fixpoint"}),
+        MValue::ExternalFn(_) => json!({"k": "extfn"}),
+        MValue::Store(v) => json!({"k": "store", "v": from_value(&v.borrow())}),
+        MValue::ConstructorFn(..) => json!({"k": "ctor"}),
+    }
+}
+
+fn to_type(t: &Value) -> TypeNodeId {
+    let ty = match t["k"].as_str().unwrap() {
+        "prim" => Type::Primitive(match t["p"].as_str().unwrap() {
+            "unit" => PType::Unit,
+            "int" => PType::Int,
+            "numeric" => PType::Numeric,
+            _ => PType::String,
+        }),
+        "arr" => Type::Array(to_type(&t["t"])),
+        "tup" => Type::Tuple(t["ts"].as_array().unwrap().iter().map(to_type).collect()),
+        "rec" => Type::Record(
+            t["fs"]
+                .as_array()
+                .unwrap()
+                .iter()
+                .map(|f| RecordTypeField::new(f["n"].as_str().unwrap().to_symbol(), to_type(&f["t"]), f["d"].as_bool().unwrap_or(false)))
+                .collect(),
+        ),
+        "fn" => Type::Function { arg: to_type(&t["a"]), ret: to_type(&t["r"]) },
+        "ref" => Type::Ref(to_type(&t["t"])),
+        "code" => Type::Code(to_type(&t["t"])),
+        "union" => Type::Union(t["ts"].as_array().unwrap().iter().map(to_type).collect()),
+        "usum" => Type::UserSum {
+            name: t["name"].as_str().unwrap().to_symbol(),
+            variants: t["vs"]
+                .as_array()
+                .unwrap()
+                .iter()
+                .map(|v| (v["n"].as_str().unwrap().to_symbol(), if v["t"]["k"] == "none" { None } else { Some(to_type(&v["t"])) }))
+                .collect(),
+        },
+        "boxed" => Type::Boxed(to_type(&t["t"])),
+        "alias" => Type::TypeAlias(t["s"].as_str().unwrap().to_symbol()),
+        "any" => Type::Any,
+        "failure" => Type::Failure,
+        "unknown" => Type::Unknown,
+        "intermediate" => Type::Intermediate(Arc::new(RwLock::new(TypeVar::new(IntermediateId(7), 0)))),
+        "scheme" => Type::TypeScheme(TypeSchemeId(3)),
+        k => panic!("bad type kind {k}"),
+    };
+    ty.into_id()
+}
+
+fn from_type(t: TypeNodeId) -> Value {
+    match t.to_type() {
+        Type::Primitive(p) => json!({"k": "prim", "p": match p { PType::Unit => "unit", PType::Int => "int", PType::Numeric => "numeric", PType::String => "string" }}),
+        Type::Array(t) => json!({"k": "arr", "t": from_type(t)}),
+        Type::Tuple(ts) => json!({"k": "tup", "ts": ts.iter().map(|t| from_type(*t)).collect::<Vec<_>>()}),
+        Type::Record(fs) => json!({"k": "rec", "fs": fs.iter().map(|f| json!({"n": f.key.as_str(), "t": from_type(f.ty), "d": f.has_default})).collect::<Vec<_>>()}),
+        Type::Function { arg, ret } => json!({"k": "fn", "a": from_type(arg), "r": from_type(ret)}),
+        Type::Ref(t) => json!({"k": "ref", "t": from_type(t)}),
+        Type::Code(t) => json!({"k": "code", "t": from_type(t)}),
+        Type::Union(ts) => json!({"k": "union", "ts": ts.iter().map(|t| from_type(*t)).collect::<Vec<_>>()}),
+        Type::UserSum { name, variants } => json!({"k": "usum", "name": name.as_str(), "vs": variants.iter().map(|(n, t)| json!({"n": n.as_str(), "t": t.map(from_type).unwrap_or(json!({"k": "none"}))})).collect::<Vec<_>>()}),
+        Type::Boxed(t) => json!({"k": "boxed", "t": from_type(t)}),
+        Type::TypeAlias(s) => json!({"k": "alias", "s": s.as_str()}),
+        Type::Any => json!({"k": "any"}),
+        Type::Failure => json!({"k": "failure"}),
+        Type::Unknown => json!({"k": "unknown"}),
+        Type::Intermediate(_) => json!({"k": "intermediate"}),
+        Type::TypeScheme(_) => json!({"k": "scheme"}),
+    }
+}
+
+/// in : {id, v?: value, t?: type}
+/// out: {id, value_ret: {status: ok|refused|panic, got}, value_args: .., value_serde: .., type_serde: ..}
+pub fn ffi(req: &Value) -> Value {
+    let mut res = serde_json::Map::new();
+    res.insert("id".into(), req["id"].clone());
+    let wrap = |f: &dyn Fn() -> Result<Value, String>| -> Value {
+        match catch_unwind(AssertUnwindSafe(f)) {
+            Ok(Ok(v)) => json!({"status": "ok", "got": v}),
+            Ok(Err(e)) => json!({"status": "refused", "msg": e}),
+            Err(e) => json!({"status": "panic", "msg": crate::panic_msg(e)}),
+        }
+    };
+    if !req["v"].is_null() {
+        let v = req["v"].clone();
+        // macro result path
+        res.insert("value_ret".into(), wrap(&|| {
+            let bytes = ffi_serde::serialize_value(&to_value(&v))?;
+            ffi_serde::deserialize_value(&bytes).map(|d| from_value(&d))
+        }));
+        // macro argument path (value + type pairs)
+        res.insert("value_args".into(), wrap(&|| {
+            let ty = Type::Primitive(PType::Numeric).into_id();
+            let bytes = ffi_serde::serialize_macro_args(&[(to_value(&v), ty), (MValue::Unit, ty)])?;
+            let d = ffi_serde::deserialize_macro_args(&bytes)?;
+            if d.len() != 2 {
+                return Err(format!("{} arguments decoded instead of 2", d.len()));
+            }
+            Ok(from_value(&d[0].0))
+        }));
+        // the interpreter value's own serde implementation
+        res.insert("value_serde".into(), wrap(&|| {
+            let bytes = bincode::serialize(&to_value(&v)).map_err(|e| e.to_string())?;
+            let d: MValue = bincode::deserialize(&bytes).map_err(|e| format!("DECODE: {e}"))?;
+            Ok(from_value(&d))
+        }));
+    }
+    if !req["t"].is_null() {
+        let t = req["t"].clone();
+        res.insert("type_serde".into(), wrap(&|| {
+            let ty = to_type(&t).to_type();
+            let bytes = bincode::serialize(&ty).map_err(|e| e.to_string())?;
+            let d: Type = bincode::deserialize(&bytes).map_err(|e| format!("DECODE: {e}"))?;
+            Ok(json!({"t": from_type(d.clone().into_id()), "eq": d == ty}))
+        }));
+    }
+    Value::Object(res)
+}
+
 pub fn fmt(req: &Value) -> Value { json!({"id": req["id"], "todo": true}) }
-pub fn ffi(req: &Value) -> Value { json!({"id": req["id"], "todo": true}) }
 pub fn compile(req: &Value) -> Value { json!({"id": req["id"], "todo": true}) }
 pub fn threads(req: &Value) -> Value { json!({"id": req["id"], "todo": true}) }
 pub fn rust(req: &Value) -> Value { json!({"id": req["id"], "todo": true}) }
